@@ -154,7 +154,7 @@ func (g graph) eval(in []uint64) []uint64 {
 func genGraph(rng interface {
 	IntN(int) int
 	Uint64() uint64
-}, maxInst int) graph {
+}, maxInst int, taps bool) graph {
 	g := graph{Rsize: []int{8, 16, 32}[rng.IntN(3)]}
 	nf := 1 + rng.IntN(3)
 	for f := 0; f < nf; f++ {
@@ -250,6 +250,23 @@ func genGraph(rng interface {
 	}
 	for _, p := range free {
 		g.ExtOut = append(g.ExtOut, [2]int{p.i, p.j})
+	}
+	// taps: an output that is consumed by another instance is also sent to the outside
+	// (one output, two links)
+	if taps {
+		for i := range g.Insts {
+			for _, s := range g.Insts[i].Src {
+				if s[0] >= 0 && rng.IntN(2) == 0 && len(g.ExtOut) < 6 {
+					dup := false
+					for _, e := range g.ExtOut {
+						dup = dup || e == s
+					}
+					if !dup {
+						g.ExtOut = append(g.ExtOut, s)
+					}
+				}
+			}
+		}
 	}
 	// external inputs never used are dropped from the count
 	used := 0
@@ -411,7 +428,7 @@ func main() {
 	rng := hx.RNG(run.Seed, "c06")
 	var cs []caseT
 	for gi := 0; gi < nGraphs; gi++ {
-		g := genGraph(rng, maxInst)
+		g := genGraph(rng, maxInst, gi%2 == 1)
 		var in [][]uint64
 		for k := 0; k < g.ExtIn; k++ {
 			var s []uint64
